@@ -38,6 +38,7 @@ func main() {
 	explain := flag.String("explain", "", "replay file: re-derive and print that obligation")
 	dump := flag.String("dump", "", "debug: dump SSA of functions whose key contains this string")
 	list := flag.Bool("list", false, "list codec types and builders and exit")
+	outDir := flag.String("out", "", "directory for evidence/ output (default: -verif)")
 	nocanary := flag.Bool("nocanary", false, "thorough tier without canaries (used by the canary runner itself)")
 	flag.Parse()
 
@@ -50,6 +51,9 @@ func main() {
 	if *tier != "quick" && *tier != "thorough" {
 		fmt.Fprintln(os.Stderr, "tier must be quick or thorough")
 		os.Exit(2)
+	}
+	if *outDir == "" {
+		*outDir = *verif
 	}
 	start := time.Now()
 	P, err := loadProgram(*repo)
@@ -121,7 +125,7 @@ func main() {
 			explainReplay(c, *explain)
 			return
 		}
-		code := c.finish(*verif, seed, time.Since(t0).Seconds(), ps.Explanation, extra)
+		code := c.finish(*verif, *outDir, seed, time.Since(t0).Seconds(), ps.Explanation, extra)
 		if code > exit {
 			exit = code
 		}
